@@ -410,6 +410,186 @@ void run_c07 (void)
 		}
 }
 
+/* =================================================================== C10 */
+
+#include <unistd.h>
+
+static char c10_path [512], c10_rsrc [512] ;
+
+static SNDFILE *c10_open (int use_path, int mode, SF_INFO *info)
+{	SNDFILE *sf ;
+	if (! use_path)
+	{	if (mode == SFM_WRITE) md_reset (&rt_dev) ; else md_rewind (&rt_dev) ;
+		return md_open (&rt_dev, mode, info) ;
+		}
+	if (mode == SFM_WRITE) { unlink (c10_path) ; unlink (c10_rsrc) ; }
+	INLIB (sf = sf_open (c10_path, mode, info)) ;
+	return sf ;
+}
+
+static void c10_case (int format, int ch, int rate)
+{	SF_INFO info, rinfo ; SNDFILE *sf ; int check, rc, use_path = (format & SF_FORMAT_TYPEMASK) == SF_FORMAT_SD2 ;
+	char sigp [96] ; uint64_t out = VL_H0 ;
+	const char *chcls = ch < 1 ? "ch<1" : ch == 1 ? "ch1" : ch == 2 ? "ch2" : ch <= 1024 ? "chN" : "ch>1024" ;
+	const char *rcls = rate < 0 ? "rate<0" : rate == 0 ? "rate0" : "rate>0" ;
+	static const char *endn [4] = { "file", "le", "be", "cpu" } ;
+
+	(void) endn ; (void) chcls ;
+	if (rate == 2147483647) rcls = "rate=2^31-1" ;
+	snprintf (sigp, sizeof (sigp), "%s/%s|%s", major_name (format), sub_name (format), rcls) ;
+	memset (&info, 0, sizeof (info)) ; info.format = format ; info.channels = ch ; info.samplerate = rate ;
+	check = sf_format_check (&info) ;
+	info.frames = 0 ;
+	sf = c10_open (use_path, SFM_WRITE, &info) ;
+	out = vl_hash_u64 (check * 2 + (sf != NULL), out) ;
+	if ((sf != NULL) != (check != 0))
+	{	vl_violation (rate == 0 && check && ! sf ? "any-format|rate0|check=1-open=refused" : rt_sig ("%s|check=%d-open=%s", sigp, check, sf ? "ok" : "refused"), "sf_format_check=%d but write-open %s (%s)", check,
+			sf ? "succeeded" : "failed", sf ? "" : sf_strerror (NULL)) ;
+		}
+	if (sf == NULL)
+	{	int e ; INLIB (e = sf_error (NULL)) ;
+		if (e == 0) vl_violation (rt_sig ("%s|refused-without-error", sigp), "NULL handle but sf_error(NULL)==0") ;
+		if (use_path) { unlink (c10_path) ; unlink (c10_rsrc) ; }
+		vl_end (1, out) ; return ;
+		}
+	if (check)
+	{	for (int t = 0 ; t < T_NTYPES ; t++)
+			for (int full = 0 ; full < 2 ; full ++)
+			{	long frames = 3, items = frames * ch ; sf_count_t w ; int e ;
+				void *buf = calloc (items, type_size [t]) ;
+				if (full)
+					for (long i = 0 ; i < items ; i++)
+						switch (t)
+						{	case T_SHORT : ((short *) buf) [i] = (i & 1) ? -32768 : 32767 ; break ;
+							case T_INT : ((int *) buf) [i] = (i & 1) ? INT32_MIN : INT32_MAX ; break ;
+							case T_FLOAT : ((float *) buf) [i] = (i & 1) ? -1.0f : 1.0f ; break ;
+							case T_DOUBLE : ((double *) buf) [i] = (i & 1) ? -1.0 : 1.0 ; break ;
+							}
+				w = vl_write (sf, t, 1, buf, frames) ;
+				INLIB (e = sf_error (sf)) ;
+				if (w < frames || e != 0)
+					vl_violation (rt_sig ("%s|writef_%s-rejected", sigp, type_names [t]), "sf_writef_%s returned %lld of %ld, sf_error=%d (%s)", type_names [t], (long long) w, frames, e, sf_error_number (e)) ;
+				free (buf) ;
+				}
+		}
+	INLIB (rc = sf_close (sf)) ;
+	if (rc != 0) vl_violation (rt_sig ("%s|close-nonzero", sigp), "sf_close returned %d", rc) ;
+	if (check)
+	{	memset (&rinfo, 0, sizeof (rinfo)) ;
+		if ((format & SF_FORMAT_TYPEMASK) == SF_FORMAT_RAW) { rinfo.format = format ; rinfo.channels = ch ; rinfo.samplerate = rate > 0 ? rate : 1 ; }
+		sf = c10_open (use_path, SFM_READ, &rinfo) ;
+		if (sf == NULL)
+			vl_violation (rt_sig ("%s|reopen-failed", sigp), "re-open for read failed: %s", sf_strerror (NULL)) ;
+		else
+		{	if ((rinfo.format & (SF_FORMAT_TYPEMASK | SF_FORMAT_SUBMASK)) != (format & (SF_FORMAT_TYPEMASK | SF_FORMAT_SUBMASK)))
+				vl_violation (rt_sig ("%s|reopen-format", sigp), "re-opened as 0x%x, written as 0x%x", rinfo.format, format) ;
+			INLIB (sf_close (sf)) ;
+			}
+		}
+	if (use_path) { unlink (c10_path) ; unlink (c10_rsrc) ; }
+	vl_end (1, out) ;
+}
+
+static void c10_lists (void)
+{	static const int cmds [3][2] = { { SFC_GET_SIMPLE_FORMAT_COUNT, SFC_GET_SIMPLE_FORMAT }, { SFC_GET_FORMAT_MAJOR_COUNT, SFC_GET_FORMAT_MAJOR }, { SFC_GET_FORMAT_SUBTYPE_COUNT, SFC_GET_FORMAT_SUBTYPE } } ;
+	static const char *lname [3] = { "simple", "major", "subtype" } ;
+	for (int l = 0 ; l < 3 ; l++)
+	{	if (! vl_case ("C10 list=%s", lname [l])) continue ;
+		int count = -1 ; uint64_t out = VL_H0 ;
+		SF_FORMAT_INFO fi [128] ; char names [128][128] ;
+		sf_command (NULL, cmds [l][0], &count, sizeof (int)) ;
+		if (count < 1 || count > 120) vl_violation (rt_sig ("list-%s|count", lname [l]), "count=%d", count) ;
+		else
+		{	for (int k = -1 ; k <= count ; k++)
+			{	SF_FORMAT_INFO x ; int r ; memset (&x, 0, sizeof (x)) ; x.format = k ;
+				INLIB (r = sf_command (NULL, cmds [l][1], &x, sizeof (x))) ;
+				if (k < 0 || k >= count)
+				{	if (r == 0) vl_violation (rt_sig ("list-%s|out-of-range-accepted", lname [l]), "index %d of %d returned success", k, count) ;
+					continue ;
+					}
+				if (r != 0) { vl_violation (rt_sig ("list-%s|in-range-refused", lname [l]), "index %d of %d returned %d", k, count, r) ; continue ; }
+				fi [k] = x ;
+				if (x.name == NULL || x.name [0] == 0) vl_violation (rt_sig ("list-%s|empty-name", lname [l]), "index %d (0x%x) has no name", k, x.format) ;
+				snprintf (names [k], 128, "%s", x.name ? x.name : "") ;
+				out = vl_hash (names [k], strlen (names [k]), vl_hash_u64 (x.format, out)) ;
+				for (int j = 0 ; j < k ; j++)
+				{	if (fi [j].format == x.format) vl_violation (rt_sig ("list-%s|duplicate-format", lname [l]), "indices %d and %d both 0x%x", j, k, x.format) ;
+					if (strcmp (names [j], names [k]) == 0) vl_violation (rt_sig ("list-%s|duplicate-name", lname [l]), "indices %d and %d both '%s'", j, k, names [k]) ;
+					}
+				/* SFC_GET_FORMAT_INFO on the returned word */
+				{	SF_FORMAT_INFO y ; memset (&y, 0, sizeof (y)) ; y.format = x.format ;
+					INLIB (r = sf_command (NULL, SFC_GET_FORMAT_INFO, &y, sizeof (y))) ;
+					if (r != 0 || y.name == NULL || y.name [0] == 0)
+						vl_violation (rt_sig ("list-%s|format-info", lname [l]), "SFC_GET_FORMAT_INFO(0x%x) returned %d", x.format, r) ;
+					else if (l > 0 && strcmp (y.name, names [k]) != 0)
+						vl_violation (rt_sig ("list-%s|format-info-name", lname [l]), "SFC_GET_FORMAT_INFO(0x%x) name '%s' != list name '%s'", x.format, y.name, names [k]) ;
+					}
+				if (l == 0)
+				{	SF_INFO si ; int ok = 0 ; memset (&si, 0, sizeof (si)) ; si.format = x.format ; si.samplerate = 44100 ;
+					for (int c = 1 ; c <= 2 && ! ok ; c++) { si.channels = c ; ok = sf_format_check (&si) ; }
+					if (! ok) vl_violation (rt_sig ("list-simple|format-check"), "simple format %d (0x%x, %s) fails sf_format_check for 1 and 2 channels", k, x.format, names [k]) ;
+					}
+				if (l == 1)
+				{	int nsub = 0, usable = 0 ;
+					sf_command (NULL, SFC_GET_FORMAT_SUBTYPE_COUNT, &nsub, sizeof (int)) ;
+					for (int sidx = 0 ; sidx < nsub && ! usable ; sidx++)
+					{	SF_FORMAT_INFO sx ; SF_INFO si ; sx.format = sidx ;
+						sf_command (NULL, SFC_GET_FORMAT_SUBTYPE, &sx, sizeof (sx)) ;
+						for (int c = 1 ; c <= 2 && ! usable ; c++)
+						{	memset (&si, 0, sizeof (si)) ; si.format = x.format | sx.format ; si.channels = c ; si.samplerate = 44100 ;
+							usable = sf_format_check (&si) ;
+							}
+						}
+					if (! usable) vl_violation (rt_sig ("list-major|no-usable-subtype"), "major %d (0x%x, %s) has no subtype passing sf_format_check", k, x.format, names [k]) ;
+					}
+				}
+			}
+		vl_end (1, out) ;
+		}
+}
+
+void run_c10 (void)
+{	static const int chans [] = { 0, 1, 2, 3, 8, 9, 256, 257, 1024, 1025 } ;
+	static const int rates [] = { -1, 0, 1, 8000, 44100, 2147483647 } ;
+	static const int endians [4] = { SF_ENDIAN_FILE, SF_ENDIAN_LITTLE, SF_ENDIAN_BIG, SF_ENDIAN_CPU } ;
+	static const char *endn [4] = { "file", "le", "be", "cpu" } ;
+	int nmajor = 0, nsub = 0 ;
+	const char *tmp = getenv ("TMPDIR") ;
+	snprintf (c10_path, sizeof (c10_path), "%s/c10_%d.sd2", tmp ? tmp : ".", (int) getpid ()) ;
+	snprintf (c10_rsrc, sizeof (c10_rsrc), "%s/._c10_%d.sd2", tmp ? tmp : ".", (int) getpid ()) ;
+
+	c10_lists () ;
+	sf_command (NULL, SFC_GET_FORMAT_MAJOR_COUNT, &nmajor, sizeof (int)) ;
+	sf_command (NULL, SFC_GET_FORMAT_SUBTYPE_COUNT, &nsub, sizeof (int)) ;
+	for (int m = 0 ; m <= nmajor + 1 ; m++)
+	{	SF_FORMAT_INFO mi ; mi.format = m ;
+		if (m < nmajor) sf_command (NULL, SFC_GET_FORMAT_MAJOR, &mi, sizeof (mi)) ;
+		else mi.format = (m == nmajor) ? 0x0FF0000 : 0 ;	/* unknown major, zero major */
+		for (int sidx = 0 ; sidx <= nsub + 1 ; sidx++)
+		{	SF_FORMAT_INFO si ; si.format = sidx ;
+			if (sidx < nsub) sf_command (NULL, SFC_GET_FORMAT_SUBTYPE, &si, sizeof (si)) ;
+			else si.format = (sidx == nsub) ? 0x7FFF : 0 ;	/* unknown subtype, zero subtype */
+			for (int e = 0 ; e < 4 ; e++)
+				for (unsigned c = 0 ; c < sizeof (chans) / sizeof (chans [0]) ; c++)
+					for (unsigned r = 0 ; r < sizeof (rates) / sizeof (rates [0]) ; r++)
+					{	int format = mi.format | si.format | endians [e] ;
+						if (vl_case ("C10 format=0x%08x (%s/%s/%s) ch=%d rate=%d", format, major_name (format), sub_name (format), endn [e], chans [c], rates [r]))
+						{	vl_root_count (major_name (format)) ;
+							c10_case (format, chans [c], rates [r]) ;
+							}
+						}
+			}
+		}
+	/* stray bits in the format word */
+	{	static const int stray [] = { 0x40000000, (int) 0x80000000, 0x08000000, 0x00008000 } ;
+		for (unsigned k = 0 ; k < 4 ; k++)
+		{	int format = SF_FORMAT_WAV | SF_FORMAT_PCM_16 | stray [k] ;
+			if (vl_case ("C10 format=0x%08x (stray bits) ch=%d rate=%d", format, 2, 44100))
+			{	vl_root_count ("stray") ; c10_case (format, 2, 44100) ; }
+			}
+		}
+}
+
 /* =================================================================== dispatch */
 
 void run_c04 (void) ;
@@ -426,4 +606,3 @@ void harness_run (void)
 	else { fprintf (stderr, "h_rt: unknown property %s\n", vl_opts.prop) ; exit (3) ; }
 }
 
-void run_c10 (void) { }
